@@ -39,7 +39,16 @@ def run(ctx) -> None:
         raise AnchorError(f"visit_CallMacroNode: expected one _visit_children invocation, found {len(inv)}")
     inv = inv[0]
     # (i) undefined macro
-    und = [n for n in g.nodes if n.kind == "test" and "is None" in norm(n.ast) and "macro" in norm(n.ast)]
+    from ..util import local_single_defs as _lsd
+    vdefs = _lsd(f)
+    vpar = f.node.args.args[1].arg
+    # the looked-up macro: the local defined as `<...>.macros.get(<name>)` / `<...>.macros[<name>]` (by role)
+    mvar = next((k for k, v in vdefs.items() if ".macros.get(" in norm(v) or ".macros[" in norm(v)), None)
+    # the macro name: the local defined as `<node>.macro_name` (or the attribute itself)
+    nvars = {k for k, v in vdefs.items() if norm(v) == f"{vpar}.macro_name"} | {f"{vpar}.macro_name"}
+    if mvar is None:
+        raise AnchorError("visit_CallMacroNode: lookup of the macro by name not found")
+    und = [n for n in g.nodes if n.kind == "test" and norm(n.ast) in (f"{mvar} is None", f"not {mvar}")]
     ok_und = und and g.search([(und[0].id, "T")], lambda n: n.id == inv.id) is None and g.dominates(und[0], inv)
     if ok_und:
         ctx.ok("R41a", "visit_CallMacroNode: undefined macro raises before invocation")
@@ -53,7 +62,7 @@ def run(ctx) -> None:
                  "macro_calling_macro is no longer consulted: a macro calling itself recurses until the stack overflows")
     else:
         var = norm(casc[0].ast.targets[0])
-        tests = [n for n in g.nodes if n.kind == "test" and var in norm(n.ast) and "macro_name in" in norm(n.ast)]
+        tests = [n for n in g.nodes if n.kind == "test" and any(f"{nv} in {var}" in norm(n.ast) for nv in nvars)]
         inst = "visit_CallMacroNode: recursion test dominates invocation and raises"
         if not tests:
             ctx.fail("R41a", f, casc[0].ast, inst, "result of macro_calling_macro is not tested for the called macro's own name")
